@@ -234,6 +234,10 @@ func AddRawFrames(rng *Rand, h *History) {
 				}
 			}
 		}
+		if rng.Intn(12) == 0 && !ro.ViaAddFrame {
+			// a frame that does not fit the canvas: Close must refuse to write the file
+			ro.X = 2 * ((h.W-fw)/2 + 1)
+		}
 		f.W, f.H, f.Pix, f.RawOp = fw, fh, pix, ro
 	}
 }
